@@ -48,6 +48,18 @@ def run(chk):
                                        ('let', 't', ('tup', [('i', 1), call]), None),
                                        ('let', 'q', ('arr', [call, ('i', 2)], 'int'), None)]
                 cases.append(Case(ds, f"leftmost-k{k}", printer_rng=rng))
+    # (b') aggregates: every subset of erroring fields of a literal tuple, every selected index, several consumers
+    for k in range(1, 4):
+        for mask in range(1, 2 ** k):
+            items = [('c', 'err_int', [('s', f't{i}')]) if (mask >> i) & 1 else ('c', 'display', [('i', 10 + i)]) for i in range(k)]
+            ds = list(cg.ERR_PRELUDE)
+            for idx in range(k):
+                ds.append(('let', f'm{idx}', ('item', ('tup', items), idx), None))
+            ds.append(('let', 'whole', ('tup', items), None))
+            ds.append(('let', 'arr', ('arr', items, 'int'), None))
+            ds.append(('let', 'n', ('c', 'len', [('arr', items, 'int')]), None))
+            ds.append(('let', 'nested', ('item', ('tup', [('i', 1), ('tup', items)]), 0), None))
+            cases.append(Case(ds, f"aggregate-k{k}", printer_rng=rng))
     res = three_way(chk, cases, "c06", nontrivial=lambda c, ev: 'err_' in c.src and 'error' in json.dumps(ev.out) or 'err_' in c.src)
     for c, ci, cm, co, ev in res[:2]:
         chk.sample({"program": c.src, "impl": ci})
